@@ -26,6 +26,7 @@ import (
 	"crypto/rand"
 	"crypto/sha256"
 	"crypto/sha512"
+	"crypto/tls"
 	"crypto/x509"
 	"crypto/x509/pkix"
 	"database/sql"
@@ -53,6 +54,7 @@ import (
 	"time"
 
 	"github.com/Cloud-Foundations/keymaster/lib/authenticators/okta"
+	"github.com/Cloud-Foundations/keymaster/lib/certgen"
 	"github.com/Cloud-Foundations/keymaster/lib/paths"
 	"github.com/Cloud-Foundations/keymaster/lib/pwauth"
 	"github.com/Cloud-Foundations/keymaster/lib/pwauth/htpassword"
@@ -339,6 +341,8 @@ type c05World struct {
 	u2fTok   [2]*c05Token
 	waTok    [2]*c05Token
 	strayTok *c05Token
+	kmCA     *x509.Certificate
+	certs    [2]*x509.Certificate
 	// per sequence
 	jar      []c05Cookie
 	toks     map[string]string // CLI tokens handed out, by "<uid>:<expiry tick>"
@@ -451,6 +455,7 @@ func c05Setup(t *testing.T) (*c05World, func()) {
 
 func (w *c05World) reset(f0, b0, f1, b1 int, oktaMode bool, sharedLocalPart bool) {
 	c05Users = c05NameSchemes[sharedLocalPart]
+	w.certs = [2]*x509.Certificate{}
 	w.state.oktaUsernameFilterRE = nil
 	if oktaMode && sharedLocalPart {
 		w.state.oktaUsernameFilterRE = c05StaffFilter
@@ -628,6 +633,32 @@ func (w *c05World) avoidCollision(code string, owner int, d int) string {
 	return code
 }
 
+// clientCert: a keymaster-issued X.509 client certificate of user uid (made once per world), and the CA
+func (w *c05World) clientCert(uid int) (*x509.Certificate, *x509.Certificate) {
+	if w.kmCA == nil {
+		ca, err := x509.ParseCertificate(w.state.caCertDer[0])
+		if err != nil {
+			panic(err)
+		}
+		w.kmCA = ca
+	}
+	if w.certs[uid] == nil {
+		pub, err := getPubKeyFromPem(testUserPEMPublicKey)
+		if err != nil {
+			panic(err)
+		}
+		der, err := certgen.GenUserX509Cert(c05Users[uid], pub, w.kmCA, w.state.Signer, nil, time.Hour, nil, nil, nil, logger)
+		if err != nil {
+			panic(err)
+		}
+		w.certs[uid], err = x509.ParseCertificate(der)
+		if err != nil {
+			panic(err)
+		}
+	}
+	return w.certs[uid], w.kmCA
+}
+
 func (w *c05World) realStepNow() int64 { return time.Now().Unix() / 30 }
 
 // attach adds the referenced session cookies IN ORDER: refs joined by "+", each "<uid>:<level>" = the
@@ -639,6 +670,17 @@ func (w *c05World) attach(req *http.Request, refs string) {
 	}
 	const garbage = "eyJhbGciOiJSUzI1NiJ9.e30.AAAA"
 	for _, ref := range strings.Split(refs, "+") {
+		if strings.HasPrefix(ref, "cert") {
+			// "cert<uid>": the request arrives over TLS with a verified keymaster-issued client certificate of
+			// that user (chain [leaf, CA], as crypto/tls hands it over), whatever cookies it also carries
+			uid := c05Atoi(ref[4:])
+			if uid == 0 || uid == 1 {
+				leaf, ca := w.clientCert(uid)
+				req.TLS = &tls.ConnectionState{VerifiedChains: [][]*x509.Certificate{{leaf, ca}},
+					PeerCertificates: []*x509.Certificate{leaf}}
+			}
+			continue
+		}
 		val := garbage // "x", or a (subject, level) the server never issued: a value that does not verify
 		for i := len(w.jar) - 1; i >= 0; i-- {
 			if fmt.Sprintf("%d:%d", w.jar[i].uid, w.jar[i].level) == ref {
